@@ -10,6 +10,7 @@
                                    only that its result is a permutation sorted by slot
    [isort] is a concrete stable insertion sort by slot used to execute the model. *)
 From GV Require Import Lib.Bytes Lib.Res Gen.Consts.
+From Coq Require Import Permutation Sorted.
 Open Scope N_scope.
 
 (* math.MaxUint32 (Go standard library constant) *)
@@ -31,6 +32,15 @@ Definition slots (n : N) : res Z :=
   | Some p => Ok p
   | None => Panic 5          (* panic("too many items") *)
   end.
+
+(* what LoadFromSlice accepts: no key longer than math.MaxUint32 ("key too large"), a key count
+   that fits the int32 indices of the hashtable, and one for which calcHashtableSlots does not
+   panic "too many items": floor(n / loadfactor) has at most 31 bits.  With the present load
+   factor 3/4 the last condition is n < 3 * 2^29 and implies the second. *)
+Definition small (k : bytes) : Prop := len k <= max_uint32.
+Definition count_ok (n : N) : Prop :=
+  n < two31 /\ n * Z.to_N strmap_loadfactor_den / Z.to_N strmap_loadfactor_num < two31.
+Definition loadable (kk : list bytes) : Prop := Forall small kk /\ count_ok (len kk).
 
 (* n copies of x, n : N *)
 Definition nrepeat {A} (x : A) (n : N) : list A := N.iter n (cons x) [].
@@ -72,6 +82,12 @@ Fixpoint insert_by_slot (e : item) (l : list item) : list item :=
 Definition isort (l : list item) : list item := fold_right insert_by_slot [] l.
 
 Variable sort : list item -> list item.
+(* the order sort.Sort(itemsBySlot) establishes *)
+Definition slot_le (a b : item) : Prop := islot a <= islot b.
+(* all that is assumed of sort.Sort: some permutation of its input, ordered by slot; the order
+   inside a run of equal slots is left open (pdqsort is not stable) *)
+Definition sort_ok : Prop :=
+  (forall l, Permutation l (sort l)) /\ (forall l, Sorted slot_le (sort l)).
 
 (* The loop of LoadFromSlice: returns the bytes appended to data, the items appended, and how
    the loop ended.  [off] = len(m.data) at this iteration. *)
@@ -147,6 +163,19 @@ Definition load (st : strmap) (kk : list bytes) (vv : list V) : strmap * res uni
     | _ => (mkmap d dc its ic [] backing, r)
     end.
 
+(* LoadFromMap(m): the pairs of m in the order the range loop visits them (Go leaves it
+   unspecified: any order, a different one on every call), then LoadFromSlice.  The two slices it
+   builds always have equal lengths. *)
+Definition load_map (st : strmap) (visit : list (bytes * V)) : strmap * res unit :=
+  load st (map fst visit) (map snd visit).
+
+(* a history of LoadFromSlice calls on one instance (failed ones included) *)
+Fixpoint run_loads (st : strmap) (h : list (list bytes * list V)) : strmap :=
+  match h with
+  | [] => st
+  | (kk, vv) :: r => run_loads (fst (load st kk vv)) r
+  end.
+
 (* m.data[e.off : e.off+int(e.sz)].  Bounds are checked against len(data); Go checks a slice
    expression against cap(data), the difference is reachable only from states no load produces. *)
 Definition key_of (d : bytes) (e : item) : res bytes :=
@@ -206,7 +235,7 @@ Arguments mkmap {V}.
 Arguments data {V}. Arguments dcap {V}. Arguments items {V}. Arguments icap {V}.
 Arguments table {V}. Arguments tspare {V}.
 Arguments new_map {V}.
-Arguments insert_by_slot {V}. Arguments isort {V}.
+Arguments slot_le {V}. Arguments sort_ok {V}. Arguments insert_by_slot {V}. Arguments isort {V}.
 Arguments build {V}. Arguments set_slot {V}. Arguments fill {V}. Arguments make_hashtable {V}.
-Arguments load {V}. Arguments key_of {V}. Arguments scan {V}. Arguments get {V}.
+Arguments load {V}. Arguments load_map {V}. Arguments run_loads {V}. Arguments key_of {V}. Arguments scan {V}. Arguments get {V}.
 Arguments map_len {V}. Arguments item_at {V}. Arguments enumerate_from {V}. Arguments enumerate {V}.
